@@ -264,10 +264,49 @@ class SymEval:
 
             def visit_Compare(self_, n):
                 self_.generic_visit(n)
+                # X is None / X is not None where X is visibly None or visibly a value (arithmetic, a literal container)
+                if len(n.ops) == 1 and isinstance(n.ops[0], (ast.Is, ast.IsNot)) and isinstance(n.comparators[0], ast.Constant) \
+                        and n.comparators[0].value is None:
+                    x = n.left
+                    isnone = None
+                    if isinstance(x, ast.Constant):
+                        isnone = x.value is None
+                    elif isinstance(x, (ast.BinOp, ast.Tuple, ast.List, ast.Dict, ast.Set, ast.ListComp, ast.DictComp, ast.SetComp,
+                                        ast.JoinedStr, ast.Lambda, ast.Compare)):
+                        isnone = False
+                    if isnone is not None:
+                        return ast.Constant(value=isnone if isinstance(n.ops[0], ast.Is) else not isnone)
                 if len(n.ops) == 1 and isinstance(n.ops[0], (ast.In, ast.NotIn)) and isinstance(n.left, ast.Constant) \
                         and isinstance(n.comparators[0], ast.Dict) and all(isinstance(k, ast.Constant) for k in n.comparators[0].keys):
                     present = any(k.value == n.left.value for k in n.comparators[0].keys)
                     return ast.Constant(value=present if isinstance(n.ops[0], ast.In) else not present)
+                return n
+
+            def visit_UnaryOp(self_, n):
+                self_.generic_visit(n)
+                if isinstance(n.op, ast.Not) and isinstance(n.operand, ast.Constant):
+                    return ast.Constant(value=not n.operand.value)
+                return n
+
+            def visit_BoolOp(self_, n):
+                self_.generic_visit(n)
+                # constants decided by earlier folding: drop the neutral ones, short-circuit on the absorbing one when it
+                # comes first (operands before it would still be evaluated)
+                neutral = isinstance(n.op, ast.And)
+                vals = []
+                for v in n.values:
+                    if isinstance(v, ast.Constant) and isinstance(v.value, bool):
+                        if v.value is neutral:
+                            continue
+                        if not vals:
+                            return ast.Constant(value=v.value)
+                    vals.append(v)
+                if not vals:
+                    return ast.Constant(value=neutral)
+                if len(vals) == 1:
+                    return vals[0]
+                if len(vals) != len(n.values):
+                    return ast.BoolOp(op=n.op, values=vals)
                 return n
 
             def visit_SetComp(self_, n):
@@ -397,6 +436,31 @@ class SymEval:
                 base = base.value
             _mark_stale(r, base)
 
+    def _splice(self, r, bind, callee, fn, loop, depth):
+        """run the body of a helper on the path r with its parameters bound to (already evaluated) argument values"""
+        bind = dict(bind)
+        a_ = callee.node.args
+        pos = a_.posonlyargs + a_.args
+        for prm, d in zip(pos[len(pos) - len(a_.defaults):], a_.defaults):
+            bind.setdefault(prm.arg, d)
+        base = r.copy()
+        saved_env = dict(base.env)
+        base.env = {k: v for k, v in base.env.items() if k.startswith('self.')}
+        base.env.update(bind)
+        base.ret, base.done = None, False
+        for q in self.block(callee.node.body, base, callee, loop, depth + 1):
+            if q.raised:
+                q2 = q.copy()
+                yield q2, None
+                continue
+            q2 = q.copy()
+            rv = q2.ret
+            fields = {k: v for k, v in q2.env.items() if k.startswith('self.')}
+            q2.env = dict(saved_env)
+            q2.env.update(fields)
+            q2.ret, q2.done = None, False
+            yield q2, (rv if rv is not None else ast.Constant(value=None))
+
     def _helper(self, fn, call):
         """resolve a call to a spliceable helper: method of the class (incl. static) or private module-level function"""
         f = call.func
@@ -472,34 +536,26 @@ class SymEval:
             if h is not None:
                 callee, off = h
                 params = callee.params()[off:]
-                bind = {}
-                for p_, a in zip(params, node.args):
-                    bind[p_] = self.val(r, a)
-                for k in node.keywords:
-                    if k.arg:
-                        bind[k.arg] = self.val(r, k.value)
-                # defaults
-                a_ = callee.node.args
-                pos = a_.posonlyargs + a_.args
-                for prm, d in zip(pos[len(pos) - len(a_.defaults):], a_.defaults):
-                    bind.setdefault(prm.arg, d)
-                base = r.copy()
-                saved_env = dict(base.env)
-                base.env = {k: v for k, v in base.env.items() if k.startswith('self.')}
-                base.env.update(bind)
-                base.ret, base.done = None, False
-                for q in self.block(callee.node.body, base, callee, loop, depth + 1):
-                    if q.raised:
-                        q2 = q.copy()
-                        yield q2, None
-                        continue
-                    q2 = q.copy()
-                    rv = q2.ret
-                    fields = {k: v for k, v in q2.env.items() if k.startswith('self.')}
-                    q2.env = dict(saved_env)
-                    q2.env.update(fields)
-                    q2.ret, q2.done = None, False
-                    yield q2, (rv if rv is not None else ast.Constant(value=None))
+                # call by value: an argument that contains a call / await is evaluated once, before the body runs
+                # (in let-normal form its result is a symbol), left to right
+                slots = [(p_, a) for p_, a in zip(params, node.args) if not isinstance(a, ast.Starred)] + \
+                    [(k.arg, k.value) for k in node.keywords if k.arg]
+                argstates = [(r, {})]
+                for p_, a in slots:
+                    nxt = []
+                    for q, bnd in argstates:
+                        if any(isinstance(x, (ast.Await, ast.Yield, ast.YieldFrom, ast.Call)) for x in ast.walk(a)) \
+                                and not isinstance(a, ast.Lambda):
+                            for q2, v in self.eval_value(q, a, fn, loop, depth):
+                                if q2.raised:
+                                    yield q2, None
+                                    continue
+                                nxt.append((q2, dict(bnd, **{p_: v})))
+                        else:
+                            nxt.append((q, dict(bnd, **{p_: self.val(q, a)})))
+                    argstates = nxt
+                for r_, bind_ in argstates:
+                    yield from self._splice(r_, bind_, callee, fn, loop, depth)
                 return
             # list surgery on a local:  L.pop() / L.pop(-1) / L.pop(0)
             f = node.func
@@ -617,6 +673,25 @@ class SymEval:
             targets = s.targets if isinstance(s, ast.Assign) else [s.target]
             if value is None:
                 yield r
+                return
+            # X = [<takes something out of a container> for t in it]  ==  X = []; for t in it: X.append(<...>)
+            # (a comprehension whose element expression removes from a container is a loop with effects, not a value)
+            if isinstance(value, ast.ListComp) and len(value.generators) == 1 and not value.generators[0].is_async \
+                    and len(targets) == 1 and isinstance(targets[0], ast.Name) and any(
+                        isinstance(x, ast.Call) and isinstance(x.func, ast.Attribute) and x.func.attr in ('popleft', 'pop', 'popitem', 'get_nowait')
+                        for x in ast.walk(value.elt)):
+                g = value.generators[0]
+                nm = targets[0].id
+                body = ast.Expr(value=ast.Call(func=ast.Attribute(value=ast.Name(id=nm, ctx=ast.Load()), attr='append', ctx=ast.Load()),
+                                               args=[value.elt], keywords=[]))
+                for t_ in reversed(g.ifs):
+                    body = ast.If(test=t_, body=[body], orelse=[])
+                stmts = [ast.Assign(targets=[ast.Name(id=nm, ctx=ast.Store())], value=ast.List(elts=[], ctx=ast.Load())),
+                         ast.For(target=g.target, iter=g.iter, body=[body], orelse=[])]
+                for x in stmts:
+                    ast.copy_location(x, s)
+                    ast.fix_missing_locations(x)
+                yield from self.block(stmts, r, fn, loop, depth)
                 return
             for q, v in self.eval_value(r, value, fn, loop, depth):
                 q = q.copy()
